@@ -205,7 +205,7 @@ structure Opened where
 deriving Repr
 
 /-- what the reader reports for one entry -/
-structure SEnt where
+structure ImgEnt where
   path : List Bytes
   ino : Inode
   uid : Nat
@@ -214,13 +214,13 @@ structure SEnt where
 deriving DecidableEq, Repr
 
 /-- `hydrateDirectoryEntries` / `directoryEntryFromInode` + the file's bytes -/
-def hydrate (c : Codec) (img : Dev) (o : Opened) (path : List Bytes) (i : Inode) : Option SEnt :=
+def hydrate (c : Codec) (img : Dev) (o : Opened) (path : List Bytes) (i : Inode) : Option ImgEnt :=
   match o.ids[i.hdr.uid]?, o.ids[i.hdr.gid]?, fileBytes c img o.bs o.frags i.body with
   | some u, some g, some d => some { path := path, ino := i, uid := u, gid := g, data := d }
   | _, _, _ => none
 
-def imgEnts (c : Codec) (img : Dev) (o : Opened) (rd : List Bytes → Inode → Option (List SEnt)) (pre : List Bytes) :
-    List DEnt → Option (List SEnt)
+def imgEnts (c : Codec) (img : Dev) (o : Opened) (rd : List Bytes → Inode → Option (List ImgEnt)) (pre : List Bytes) :
+    List DEnt → Option (List ImgEnt)
   | [] => some []
   | e :: es =>
     match getInodeM c img o.inodeStart o.bs e.startBlock e.offset e.typ with
@@ -232,7 +232,7 @@ def imgEnts (c : Codec) (img : Dev) (o : Opened) (rd : List Bytes → Inode → 
       | _, _, _ => none
 
 /-- everything below the directory whose inode is `ino` -/
-def imgWalk (c : Codec) (img : Dev) (o : Opened) : Nat → List Bytes → Inode → Option (List SEnt)
+def imgWalk (c : Codec) (img : Dev) (o : Opened) : Nat → List Bytes → Inode → Option (List ImgEnt)
   | 0, _, _ => none
   | fuel+1, pre, ino =>
     match listingRef ino.body with
@@ -256,7 +256,7 @@ def openImage (c : Codec) (img : Dev) : Option (Superblock × Opened × Inode) :
       (getInodeM c img sb.inodeStart sb.blocksize (sb.rootInode / 65536) (sb.rootInode % 65536) 1).map fun r => (sb, o, r)
 
 /-- open and walk -/
-def readImageS (c : Codec) (img : Dev) (fuel : Nat) : Option (Superblock × List SEnt) :=
+def readImageS (c : Codec) (img : Dev) (fuel : Nat) : Option (Superblock × List ImgEnt) :=
   match openImage c img with
   | none => none
   | some (sb, o, root) => (imgWalk c img o fuel [] root).map fun es => (sb, es)
@@ -296,10 +296,10 @@ structure Attr where
   gid : Nat
   data : Bytes
 
-def STree.sent (t : STree) (a : Nat → Attr) (pre : List Bytes) (c : Nat) : SEnt :=
+def STree.sent (t : STree) (a : Nat → Attr) (pre : List Bytes) (c : Nat) : ImgEnt :=
   { path := pre ++ [t.name c], ino := t.ino c, uid := (a c).uid, gid := (a c).gid, data := (a c).data }
 
-def STree.walkS (t : STree) (a : Nat → Attr) : Nat → List Bytes → Nat → List SEnt
+def STree.walkS (t : STree) (a : Nat → Attr) : Nat → List Bytes → Nat → List ImgEnt
   | 0, _, _ => []
   | fuel+1, pre, d =>
     (t.kids d).flatMap fun c =>
